@@ -89,7 +89,7 @@ def gen_cases(tier, seed):
     # one SP shared by threads that verify messages of different issuers at once (yields injected); afterwards - and meanwhile - a message
     # naming one issuer but signed with another known entity's key must still be refused, and genuine ones accepted
     for k in range(3 if tier == "quick" else 24):
-        cases.append({"id": "threads-%d" % k, "sig": ["threads", k], "kind": "threads", "k": k, "opt": [1, 0, "default"][k % 3],
+        cases.append({"id": "threads-%d" % k, "sig": ["threads", k], "kind": "threads", "own_worker": True, "all_envs": True, "k": k, "opt": [1, 0, "default"][k % 3],
                       "level": ["response", "assertion"][k % 2], "rounds": 8 if tier == "quick" else 30})
     return cases
 
@@ -129,7 +129,7 @@ def run_threads_case(case, ctx):
                     seen["forged_accepted"].append((n, m))
                 else:
                     seen["forged_rejected"] += 1
-    res, errs, stats = interleave.run_threads([loop(n) for n in names] + [forger], "%s/%s" % (ctx.seed, case["id"]), p=0.05, timeout=600)
+    res, errs, stats = interleave.run_threads_regimes([loop(n) for n in names] + [forger], "%s/%s" % (ctx.seed, case["id"]), timeout=600)
     # and once more when everything is quiet again (state left behind by the concurrent phase)
     for (n, m), xml in sorted(forged.items()):
         r, e = fed.deliver(sp, xml, {"id-req-1": "/"})
